@@ -37,7 +37,9 @@ ASSUMPTIONS = [
 EXHAUSTIVE_SCOPE = {
   "quick": "the catalog of one minimal instance per protocol / message kind (pvf.ref.pktdissect.catalog), each with payload lengths 0, 1, 6, 7; "
            "UDP/TCP/ICMP/ICMPv6 over IPv4/IPv6 with payloads constructed so that the checksum computes to 0x0000 and so that the "
-           "end-around carry must be folded twice",
+           "end-around carry must be folded twice; every variable-length element (LLDP TLVs, IPv4/TCP option areas, DHCP option values incl. the "
+           ">255 split, DNS labels/names, IPv6 extension headers, ND options, IGMPv3 source/aux lists and record counts, RIP entries, GRE "
+           "source route entries, MPLS depth) at min, max, max-1 and a boundary in between",
   "thorough": "as quick plus payload lengths 2..64, 1499, 1500 for every catalog entry with a free payload",
 }
 
@@ -502,7 +504,7 @@ def _exc(out, e, clause, **extra):
 def _chain(p, packet_base):
   out = []
   x = p
-  while isinstance(x, packet_base) and len(out) < 64:
+  while isinstance(x, packet_base) and len(out) < 1024:
     out.append(x)
     x = x.next
   return out, x
@@ -676,6 +678,64 @@ def _fit_8023(spec):
   return spec
 
 
+def _limit_labels(spec):
+  """which variable-length elements of the spec sit at or next to their length limit (for the evidence distribution)"""
+  out = set()
+  for r in spec:
+    t = r["t"]
+    if t == "ipv4" and len(r.get("opts", b"")) == 40:
+      out.add("limit:ipv4-options-40")
+    elif t == "tcp" and r.get("opts") and len(P._tcp_options(r["opts"])) == 40:
+      out.add("limit:tcp-options-40")
+    elif t == "ipv6":
+      for e in r.get("ext", []):
+        if len(e["body"]) >= 6 + 8 * 254:
+          out.add("limit:ipv6-ext-len>=254")
+    elif t == "lldp":
+      for x in r["tlvs"]:
+        n = len(P._lldp({"tlvs": [x]})) - 2
+        if n >= 510:
+          out.add("limit:lldp-tlv-510..511")
+        elif n >= 256:
+          out.add("limit:lldp-tlv>=256")
+        elif n == 255:
+          out.add("limit:lldp-tlv-255")
+    elif t == "dhcp":
+      for o in r.get("opts", []):
+        n = len(P.dhcp_option_bytes(o))
+        if n > 255:
+          out.add("limit:dhcp-option>255(split)")
+        elif n >= 254:
+          out.add("limit:dhcp-option-254..255")
+      if len(r.get("sname", b"")) == 64 or len(r.get("file", b"")) == 128:
+        out.add("limit:dhcp-sname/file-full")
+    elif t == "dns":
+      for x in r.get("q", []) + r.get("an", []) + r.get("ns", []) + r.get("ar", []):
+        names = [x["name"]] + ([x["rd"]["name"]] if "rd" in x and "name" in x["rd"] else [])
+        for nm in names:
+          if any(len(l) == 63 for l in nm.split(".")):
+            out.add("limit:dns-label-63")
+          if len(P.dns_name(nm)) >= 254:
+            out.add("limit:dns-name-254..255")
+    elif t == "igmp3":
+      for g in r["records"]:
+        if len(g["srcs"]) >= 255:
+          out.add("limit:igmp3-sources>=255")
+        if len(g.get("aux", b"")) >= 4 * 254:
+          out.add("limit:igmp3-aux>=254w")
+    elif t == "rip" and len(r.get("entries", [])) >= 24:
+      out.add("limit:rip-entries-24..25")
+    elif t in ("nd_rs", "nd_ra", "nd_ns", "nd_na"):
+      for o in r.get("opts", []):
+        if o["k"] == "gen" and len(o["data"]) >= 8 * 254 - 2:
+          out.add("limit:nd-option-len>=254")
+    elif t == "gre":
+      for sre in r.get("routing") or []:
+        if len(sre[2]) >= 254:
+          out.add("limit:gre-sre-254..255")
+  return out
+
+
 def run_case(case):
   setup()
   spec = case["spec"]
@@ -692,6 +752,8 @@ def run_case(case):
   structured = spec[-1]["t"] != "raw"
   nonempty = structured or any(v[-1].get("len", len(v[-1].get("data", b""))) > 0 for v in variants)
   out.nontrivial = len(protos) >= 3 and nonempty
+  for lab in sorted(_limit_labels(spec)):
+    out.label(lab)
   for r in spec:
     if r["t"] == "ipv4" and r.get("opts"):
       out.label("ipv4-options")
@@ -792,12 +854,121 @@ def enum_directed(tier):
         yield {"spec": prefix + [{"t": "raw", "data": data}], "shape": "directed:%s-%s" % (name, target), "twin": False}
 
 
+def enum_limits(tier):
+  """every variable-length element at its length limits: min, max, max-1 and a boundary in between"""
+  e, ip4, ip6, u = P._eth(), P._ip4(), P._ip6(), {"t": "udp"}
+  le = P._eth(dst=bytes.fromhex("0180c200000e"))
+  pay = P._raw(6)
+  B = lambda n, k=3: P.pattern(n, k)
+  mand = [{"k": "chassis", "sub": 4, "id": P.M1}, {"k": "port", "sub": 2, "id": b"1"}, {"k": "ttl", "v": 120}]
+  end = [{"k": "end"}]
+
+  def lldp(name, tlvs):
+    return ("lldp-" + name, [le, {"t": "lldp", "tlvs": tlvs}])
+
+  out = []
+  # LLDP: the TLV length is 9 bits (0..511)
+  for n in (0, 1, 255, 256, 257, 511):
+    for k in ("portdesc", "sysname", "sysdesc"):
+      out.append(lldp("%s-%d" % (k, n), mand + [{"k": k, "v": B(n)}] + end))
+    out.append(lldp("unk-%d" % n, mand + [{"k": "unk", "type": 9, "data": B(n)}] + end))
+  for n in (0, 1, 251, 252, 253, 507):
+    out.append(lldp("org-%d" % n, mand + [{"k": "org", "oui": b"\x00\x26\xe1", "sub": 1, "data": B(n)}] + end))
+  for n in (1, 2, 254, 255, 256, 510):
+    out.append(lldp("chassis-%d" % n, [{"k": "chassis", "sub": 7, "id": B(n)}] + mand[1:] + end))
+    out.append(lldp("port-%d" % n, [mand[0], {"k": "port", "sub": 7, "id": B(n)}, mand[2]] + end))
+  for al, ol in ((1, 0), (4, 0), (16, 2), (31, 128), (254, 0), (31, 255)):
+    out.append(lldp("mgmt-%d-%d" % (al, ol), mand + [{"k": "mgmt", "asub": 1, "addr": B(al), "isub": 2, "ifnum": 1, "oid": B(ol)}] + end))
+  out.append(lldp("many", mand + [{"k": "sysname", "v": B(511 - i)} for i in range(4)] + end))
+  # IPv4 options: 0..40 bytes
+  for n in (4, 8, 36, 40):
+    out.append(("ipv4-opts-%d" % n, [e, dict(ip4, opts=B(n)), u, pay]))
+    out.append(("ipv4-opts-%d-tcp" % n, [e, dict(ip4, opts=B(n)), {"t": "tcp"}, pay]))
+  # TCP options: the option area is at most 40 bytes
+  tcps = {
+    "unk-0": [{"k": "unk", "type": 254, "data": b""}], "unk-1": [{"k": "unk", "type": 254, "data": B(1)}],
+    "unk-37": [{"k": "unk", "type": 254, "data": B(37)}], "unk-38": [{"k": "unk", "type": 254, "data": B(38)}],
+    "nop-40": [{"k": "nop"}] * 40, "nop-39": [{"k": "nop"}] * 39, "nop-1": [{"k": "nop"}],
+    "sack-1": [{"k": "sack", "v": [[1, 2]]}], "sack-3": [{"k": "sack", "v": [[1, 2], [3, 4], [5, 0xffffffff]]}],
+    "sack-4": [{"k": "sack", "v": [[1, 2], [3, 4], [5, 6], [7, 8]]}],
+    "sack-4-mss-nopnop": [{"k": "sack", "v": [[1, 2], [3, 4], [5, 6], [7, 8]]}, {"k": "nop"}, {"k": "nop"}, {"k": "mss", "v": 0xffff}],
+    "ts-x4": [{"k": "ts", "v": [0xffffffff, 0]}] * 4, "mss-x10": [{"k": "mss", "v": 536}] * 10,
+    "mpcap-20x2": [{"k": "mpcap", "flags": 0xff, "skey": B(8), "rkey": B(8, 4), "ver": 15}] * 2,
+    "mpjoin-24-16": [{"k": "mpjoin", "phase": 3, "flags": 1, "addr_id": 255, "rtoken": B(4), "srand": B(4), "shmac": B(20)},
+                     {"k": "mpjoin", "phase": 2, "flags": 0, "addr_id": 0, "rtoken": B(4), "srand": B(4), "shmac": B(20)}],
+    "mpdss-max": [{"k": "mpdss", "flags": 0x1f, "ack": 2 ** 64 - 1, "dsn": 2 ** 64 - 1, "seq": 2 ** 32 - 1, "length": 0xffff, "csum": 0xffff}],
+    "mpdss-min": [{"k": "mpdss", "flags": 0, "ack": 0, "dsn": 0, "seq": 0, "length": 0, "csum": 0}],
+  }
+  for name, opts in tcps.items():
+    out.append(("tcp4-" + name, [e, ip4, {"t": "tcp", "opts": opts}, pay]))
+    out.append(("tcp6-" + name, [e, ip6, {"t": "tcp", "opts": opts}, pay]))
+  # DHCP: option values 1..255 and the RFC 3396 split above 255; sname / file filled completely
+  for n in (1, 2, 254, 255, 256, 300, 510, 511, 765):
+    out.append(("dhcp-raw43-%d" % n, [e, ip4, u, {"t": "dhcp", "chaddr": P.M1, "opts": [{"code": 53, "k": "msgtype", "v": 1}, {"code": 43, "k": "raw", "v": B(n)}]}]))
+    out.append(("dhcp-raw200-%d" % n, [e, ip4, u, {"t": "dhcp", "chaddr": P.M1, "opts": [{"code": 200, "k": "raw", "v": B(n)}]}]))
+  for n in (1, 2, 63):
+    out.append(("dhcp-ips-%d" % n, [e, ip4, u, {"t": "dhcp", "chaddr": P.M1, "opts": [{"code": 6, "k": "ips", "v": [bytes([10, 0, i // 256, i % 256]) for i in range(n)]}]}]))
+  for n in (0, 1, 254, 255):
+    out.append(("dhcp-params-%d" % n, [e, ip4, u, {"t": "dhcp", "chaddr": P.M1, "opts": [{"code": 55, "k": "params", "v": bytes(range(1, n + 1))}]}]))
+  for sn, fn in ((1, 1), (63, 127), (64, 128), (64, 0), (0, 128)):
+    out.append(("dhcp-sname%d-file%d" % (sn, fn), [e, ip4, u, {"t": "dhcp", "chaddr": P.M1, "sname": b"s" * sn, "file": b"f" * fn,
+                                                              "opts": [{"code": 53, "k": "msgtype", "v": 2}]}]))
+  out.append(("dhcp-many", [e, ip4, u, {"t": "dhcp", "chaddr": P.M1, "opts": [{"code": c, "k": "raw", "v": B(20, c)} for c in range(60, 120)]}]))
+  # DNS: labels up to 63 octets, names up to 255 octets on the wire
+  L = lambda n, c="a": c * n
+  names = {"label-1": "a", "label-62": L(62), "label-63": L(63), "name-255": ".".join([L(63), L(63, "b"), L(63, "c"), L(61, "d")]),
+           "name-254": ".".join([L(63), L(63, "b"), L(63, "c"), L(60, "d")]), "labels-127": ".".join(["x"] * 127)}
+  for k, nm in names.items():
+    out.append(("dns-q-" + k, [e, ip4, u, {"t": "dns", "id": 1, "q": [{"name": nm, "qtype": 1, "qclass": 1}]}]))
+    out.append(("dns-rr-" + k, [e, ip4, {"t": "udp", "sport": 53, "dport": 0xc001}, {"t": "dns", "id": 1, "qr": True, "an": [
+        {"name": nm, "qtype": 5, "qclass": 1, "ttl": 1, "rd": {"name": nm}}, {"name": nm, "qtype": 1, "qclass": 1, "ttl": 1, "rd": {"a": P.A1}}]}]))
+  for n in (0, 1, 255, 256, 1000):
+    out.append(("dns-txt-%d" % n, [e, ip4, {"t": "udp", "sport": 53, "dport": 0xc001}, {"t": "dns", "id": 1, "qr": True, "an": [
+        {"name": "t.example.com", "qtype": 16, "qclass": 1, "ttl": 1, "rd": {"raw": B(n)}}]}]))
+  for n in (1, 2, 30):
+    out.append(("dns-questions-%d" % n, [e, ip4, u, {"t": "dns", "id": 1, "q": [{"name": "h%d.example.com" % i, "qtype": 1, "qclass": 1} for i in range(n)]}]))
+  # IPv6 extension headers: Hdr Ext Len 0..255 (8..2048 octets), chains
+  for n in (0, 1, 2, 127, 254, 255):
+    for k in (0, 43, 60):
+      out.append(("ipv6-ext%d-len%d" % (k, n), [e, dict(ip6, ext=[{"k": k, "body": B(6 + 8 * n)}]), u, pay]))
+  out.append(("ipv6-ext-chain8", [e, dict(ip6, ext=[{"k": k, "body": B(6 + 8 * i)} for i, k in enumerate([0, 60, 43, 60, 0, 43, 60, 60])]), {"t": "tcp"}, pay]))
+  # ND options: length octet 1..255 (8..2040 octets)
+  for n in (1, 2, 254, 255):
+    out.append(("nd-gen-%d" % n, [e, ip6, {"t": "icmp6", "type": 135}, {"t": "nd_ns", "target": P.S2, "opts": [{"k": "gen", "type": 14, "data": B(8 * n - 2)}]}]))
+  out.append(("nd-opts-12", [e, ip6, {"t": "icmp6", "type": 134}, {"t": "nd_ra", "hlim": 255, "lifetime": 0xffff, "reachable": 2 ** 32 - 1, "retrans": 2 ** 32 - 1,
+                                       "opts": [{"k": "mtu", "mtu": 2 ** 32 - 1}, {"k": "sll", "addr": P.M1}] * 6}]))
+  # IGMPv3: source lists (16-bit count), auxiliary data (8-bit count of words), record counts
+  g = bytes([224, 1, 2, 3])
+  for n in (0, 1, 2, 255, 256, 300):
+    out.append(("igmp3-srcs-%d" % n, [e, dict(ip4, ttl=1), {"t": "igmp3", "records": [{"type": 1, "srcs": [bytes([10, 1, i // 256, i % 256]) for i in range(n)], "addr": g}]}]))
+  for n in (0, 1, 254, 255):
+    out.append(("igmp3-aux-%d" % n, [e, dict(ip4, ttl=1), {"t": "igmp3", "records": [{"type": 2, "srcs": [P.A1], "aux": B(4 * n), "addr": g}]}]))
+  for n in (0, 1, 2, 100):
+    out.append(("igmp3-records-%d" % n, [e, dict(ip4, ttl=1), {"t": "igmp3", "records": [{"type": 1 + i % 6, "srcs": [P.A1] * (i % 3), "addr": g} for i in range(n)]}]))
+  # RIP: 1..25 entries per message
+  for n in (1, 2, 24, 25):
+    out.append(("rip-entries-%d" % n, [e, ip4, u, {"t": "rip", "cmd": 2, "ver": 2, "entries": [
+        {"af": 2, "tag": i, "ip": bytes([10, i, 0, 0]), "mask": bytes([255, 255, 0, 0]), "nh": P.A1, "metric": 1 + i % 16} for i in range(n)]}]))
+  # GRE source route entries: SRE length 1..255; MPLS / VLAN depth
+  for n in (1, 4, 254, 255):
+    out.append(("gre-sre-%d" % n, [e, ip4, {"t": "gre", "type": 0x88b5, "routing": [[0x0800, 0, B(n)]]}, pay]))
+  out.append(("gre-sre-x3", [e, ip4, {"t": "gre", "type": 0x88b5, "csum": "auto", "key": 1, "seq": 2, "routing": [[0x0800, 4, B(8)], [0xffff, 255, B(255)], [1, 0, B(1)]]}, pay]))
+  for n in (1, 2, 16, 64):
+    out.append(("mpls-depth-%d" % n, [e] + [{"t": "mpls", "label": i, "ttl": 64} for i in range(n)] + [pay]))
+  # EAP / EAPOL body lengths
+  for n in (0, 1, 255, 1400):
+    out.append(("eapol-key-%d" % n, [P._eth(dst=bytes.fromhex("0180c2000003")), {"t": "eapol", "ver": 1, "type": 3}, P._raw(n)]))
+  for name, spec in out:
+    yield {"spec": spec, "shape": "limits:" + name}
+
+
 def plan(tier):
   from ..gen import pktspec
   per = 300 if tier == "quick" else 8000
   shapes = pktspec.shapes(1500)
   drivers = [Enum("catalog", lambda: enum_catalog(tier), shards=4),
-             Enum("directed-checksum-corners", lambda: enum_directed(tier), shards=2)]
+             Enum("directed-checksum-corners", lambda: enum_directed(tier), shards=2),
+             Enum("length-limits", lambda: enum_limits(tier), shards=4)]
   for name in sorted(shapes):
     def mk(name=name):
       return shapes[name].map(lambda s, name=name: {"spec": s, "shape": name})
